@@ -12,8 +12,8 @@
 // open of create() fetch the descriptor BEFORE switching and work).  The same holds for the re-open of an EXISTING file in create()
 // (`open_inode` inside the credential scope of the `reopen` closure = open_by_handle_at under the caller's ids).
 // Observed on the pinned tree (run as root, tmpfs): (mknod, mkdir, symlink, create-of-existing) = (Ok, Err(EPERM), Err(EPERM), Err(EPERM))
-// with inode_file_handles, (Ok, Ok, Ok, Ok) without.  Failing obligations of unit ptops: C05.mkdir.getfile_privileged,
-// C05.symlink.getfile_privileged, C05.create.reopen_privileged.
+// with inode_file_handles, (Ok, Ok, Ok, Ok) without.  Failing obligations of unit ptops (vx/units/ptops.py): C05.creds.getfile_privileged
+// at mkdir and at symlink, C05.creds.reopen_privileged at create's `reopen` closure.
 use std::ffi::CString;
 use std::fs;
 use std::os::unix::fs::{MetadataExt, PermissionsExt};
